@@ -12,6 +12,10 @@ def rooted_at_self(node):
         if isinstance(node, ast.Attribute) and isinstance(node.value, ast.Name) and node.value.id == 'self':
             return True
         node = node.value
+    # vars(self)[...], self.__dict__[...] reach the same object by another door
+    if isinstance(node, ast.Call) and isinstance(node.func, ast.Name) and node.func.id == 'vars' and node.args \
+            and isinstance(node.args[0], ast.Name) and node.args[0].id == 'self':
+        return True
     return False
 
 
@@ -32,8 +36,10 @@ def writes_to_self(fn):
                     out.append((n.lineno, ast.unparse(n)[:80]))
         elif isinstance(n, ast.Call) and isinstance(n.func, ast.Attribute) and n.func.attr in MUTATORS and rooted_at_self(n.func.value):
             out.append((n.lineno, ast.unparse(n)[:80]))
-        elif isinstance(n, ast.NamedExpr):
-            pass
+        elif isinstance(n, ast.Call) and ((isinstance(n.func, ast.Name) and n.func.id in ('setattr', 'delattr'))
+                                          or (isinstance(n.func, ast.Attribute) and n.func.attr in ('__setattr__', '__delattr__'))) \
+                and any(isinstance(a, ast.Name) and a.id == 'self' for a in n.args):
+            out.append((n.lineno, ast.unparse(n)[:80]))
     return sorted(set(out))
 
 
